@@ -112,7 +112,8 @@ func OpenInner(backend, dir string) (store.Store, error) {
 		if err := os.MkdirAll(dir, 0755); err != nil {
 			return nil, err
 		}
-		return badgerstore.OpenWithOptions(badger.DefaultOptions(dir).WithLoggingLevel(badger.ERROR))
+		// literally the shipped path: whatever options Open(dir) chooses are the ones users get
+		return badgerstore.Open(dir)
 	}
 	return nil, fmt.Errorf("unknown backend %q", backend)
 }
